@@ -408,8 +408,15 @@ func (r *rewriter) rewriteCall(c *astutil.Cursor, n *ast.CallExpr) {
 	case "google.golang.org/grpc.ClientConn.Close":
 		r.use("vsimenv")
 		c.Replace(callSel("vsimenv", "ConnClose", se.X))
-	case "google.golang.org/grpc.ClientConn.WaitForStateChange", "google.golang.org/grpc.ClientConn.Connect":
-		fail(r.fset, n.Pos(), "no instrumentation rule for %s", m)
+	case "google.golang.org/grpc.ClientConn.Connect":
+		r.use("vsimenv")
+		c.Replace(callSel("vsimenv", "ConnConnect", se.X))
+	case "google.golang.org/grpc.ClientConn.WaitForStateChange":
+		r.use("vsimenv")
+		c.Replace(callSel("vsimenv", "ConnWaitForStateChange", append([]ast.Expr{se.X}, n.Args...)...))
+	case "google.golang.org/grpc.ClientConn.ResetConnectBackoff":
+		r.use("vsimenv")
+		c.Replace(callSel("vsimenv", "ConnConnect", se.X))
 	case "net/http.Server.ListenAndServe":
 		r.use("vsimenv")
 		c.Replace(callSel("vsimenv", "HTTPListenAndServe", se.X))
